@@ -63,6 +63,8 @@ def run(ctx):
     ctx.counted('dir_fd / iglob / pathlib / cloned matchers vs glob', nfe, nfe // 2, [{'pattern': 'vis/*'}])
     nin_ = globcommon.inert_arguments(ctx, rng, 3 if ctx.quick else 6)
     ctx.counted('arguments that cannot change the answer (inert exclude=, root spelling, NOUNIQUE)', nin_, nin_ // 2, [{'pattern': '**', 'exclude': 'zz-no-such-name*'}])
+    ntn_ = globcommon.trailing_newline_names(ctx)
+    ctx.counted('names ending in a line feed: walk (str, bytes, dir_fd, descriptor 0, pathlib) vs REALPATH matcher', ntn_, ntn_ // 2, [{'pattern': '[b]', 'entry': 'b\\n'}])
     nug_ = globcommon.unclosed_group_paths(ctx)
     ctx.counted('unclosed groups in path patterns: walker vs matcher', nug_, nug_ // 2, [{'pattern': '@(a/[b'}])
     nsp = globcommon.spelling_equiv(ctx, rng, 3 if ctx.quick else 12, 30 if ctx.quick else 120)
